@@ -250,6 +250,10 @@ type TimingOpts struct {
 	// back-pressure: the CU's port buffer and the unit's own queues fill). Horizon overrides the cycle horizon.
 	SlowScalar, SlowVector, SlowInst int
 	Horizon                          int
+	// WarmSGPRs/WarmVGPRs > 0: launch history. Before the kernel, a one-wavefront work-group of a kernel that
+	// consists of s_endpgm only and declares that many scalar / vector registers runs to completion on the same
+	// CU (state that a CU keeps across kernels - scratch buffers, pools, allocation cursors - is then not fresh).
+	WarmSGPRs, WarmVGPRs int
 }
 
 type taskHook struct{ f func(ctx sim.HookCtx) }
@@ -315,7 +319,10 @@ func RunTiming(x *explore.Exec, k *Kernel, g Geometry, o TimingOpts) (res *Resul
 			}
 			d := t.Detail.(map[string]interface{})
 			twf := d["wf"].(*wavefront.Wavefront)
-			key := wfIndex[twf.Wavefront.UID]
+			key, known := wfIndex[twf.Wavefront.UID]
+			if !known {
+				return // the warm-up wavefront
+			}
 			pc := twf.PC()
 			ev := Event{Cycle: w.Cycle(), WG: key[0], WF: key[1], PC: pc - Code, Name: names[pc], Start: true, Seq: seq[key], taskID: t.ID}
 			seq[key]++
@@ -429,8 +436,23 @@ func RunTiming(x *explore.Exec, k *Kernel, g Geometry, o TimingOpts) (res *Resul
 	running := 0
 	doneWG := map[int]bool{}
 	mapIDs := map[string]int{}
+	// launch history: the warm-up work-group goes first and must complete before the kernel's first work-group
+	warmID, warmDone := "", o.WarmSGPRs+o.WarmVGPRs == 0
+	if !warmDone {
+		wco, wpkt := codeObject(k, Geometry{WGSize: 64, NumWG: 1})
+		wco.WFSgprCount, wco.WIVgprCount = uint16(o.WarmSGPRs), uint16(o.WarmVGPRs)
+		wco.GroupSegmentByteSize, wpkt.GroupSegmentSize = 0, 0
+		wpkt.KernelObject = Code + k.Insts[len(k.Insts)-1].PC // the final s_endpgm
+		gb := kernels.NewGridBuilder()
+		gb.SetKernel(kernels.KernelLaunchInfo{CodeObject: wco, Packet: wpkt, PacketAddr: 0x1800})
+		wwg := gb.NextWG()
+		req := protocol.MapWGReqBuilder{}.WithSrc(ace).WithDst(toACE.AsRemote()).WithPID(1).WithWG(wwg).
+			AddWf(protocol.WfDispatchLocation{Wavefront: wwg.Wavefronts[0], SIMDID: 0}).Build()
+		warmID = req.ID
+		aceF.Add(req, false)
+	}
 	mapNext := func() {
-		for next < len(wgs) && running < o.Resident {
+		for warmDone && next < len(wgs) && running < o.Resident {
 			wg := wgs[next]
 			rb := protocol.MapWGReqBuilder{}.WithSrc(ace).WithDst(toACE.AsRemote()).WithPID(1).WithWG(wg)
 			slot := next % o.Resident
@@ -453,6 +475,10 @@ func RunTiming(x *explore.Exec, k *Kernel, g Geometry, o TimingOpts) (res *Resul
 			return
 		}
 		for _, id := range cmsg.RspTo {
+			if id == warmID && !warmDone {
+				warmDone = true
+				continue
+			}
 			i, ok := mapIDs[id]
 			if !ok {
 				fail("completion-for-unknown-request", "%s", id)
